@@ -44,6 +44,15 @@ def same_shape(ctx, R, obj, params, tag, what, rel=1e-9, pmap=None):
         got = obj.evaluate_single(build.call_param(obj, [float(x) for x in q]))
         ctx.check(ref.vec_close(got, r, scale, rel), tag,
                   "%s: point at %r is %r, the original shape gives %r" % (what, [float(x) for x in q], got, ref.fl(r)))
+    # the documented second way to read a point: the zeroth derivative ("SKL[0][0] will be the surface point itself")
+    params = list(params)
+    if obj.pdimension <= 2 and params:
+        for us in (params[0], params[len(params) // 2], params[-1]):
+            r, scale = R.point(us)
+            q = [float(x) for x in (list(us) if pmap is None else pmap(us))]
+            got = obj.derivatives(q[0], order=0)[0] if obj.pdimension == 1 else obj.derivatives(q[0], q[1], order=0)[0][0]
+            ctx.check(ref.vec_close(got, r, scale, rel), tag,
+                      "%s: point at %r read as the zeroth derivative is %r, the original shape gives %r" % (what, q, got, ref.fl(r)))
 
 
 def multiplicity(kv, u):
@@ -86,3 +95,22 @@ def kv_minus(kv, u, c):
             return None
         out.pop(i)
     return out
+
+
+def views_match(ctx, obj, tag, what):
+    """The three documented readings of a rational net (ctrlptsw, ctrlpts, weights) describe the same net: same number of
+    entries, Pw = (w*P, w).  For a non-rational shape only the count is compared with the sizes."""
+    total = 1
+    for s in build.sizes_of(obj):
+        total *= s
+    P = [list(q) for q in obj.ctrlpts]
+    ctx.check(len(P) == total, tag, "%s: ctrlpts has %d entries for a net of %d" % (what, len(P), total))
+    if not obj.rational:
+        return
+    W, PW = list(obj.weights), [list(q) for q in obj.ctrlptsw]
+    ctx.check(len(W) == total and len(PW) == total, tag, "%s: weights has %d and ctrlptsw %d entries for a net of %d" % (what, len(W), len(PW), total))
+    if len(P) == len(W) == len(PW):
+        big = max([1e-300] + [abs(c) for q in PW for c in q[:-1]])
+        for q, w, pw in zip(P, W, PW):
+            ctx.check(w == pw[-1] and all(abs(c * w - x) <= 1e-9 * big for c, x in zip(q, pw[:-1])), tag,
+                      "%s: ctrlpts/weights entry %r, %r does not match ctrlptsw entry %r" % (what, q, w, pw))
